@@ -13,7 +13,7 @@ import (
 func init() { Registry["C10"] = c10 }
 
 func c10(c *core.Ctx) map[string]interface{} {
-	c.Explanation = "Static wiring and counter-estimate check of downlink NAS unprotection (C10). Decided for every path of tglib.NASDecode taken with a non-null integrity algorithm: (R10.dir) every NASEncrypt/NASMacCalculate call receives the UE's algorithm/key pair, COUNT = DLCount.Get(), BEARER = 1 and DIRECTION = 1 (downlink); the MAC is computed over sequence-number||message (payload[6:]) and the cipher is applied to payload[7:]; (R10.iff) deciphering happens exactly for header types 2 and 4; (R10.count) the downlink COUNT is reset to (0,0) exactly for header types 3 and 4 and before the estimate, the overflow is incremented exactly when the stored SQN is greater than the received one, then SQN := received octet payload[6]; the uplink COUNT is never touched; the message returned is PlainNasDecode of the deciphered payload; (R10.plain) header type 0 is decoded without touching any state; (R10.ie) GetNasPdu selects the NAS-PDU IE by its id, not its position, and derives the header type from the same buffer. NOT decided: cipher/MAC values (C07), the AMF's behaviour, and what happens on a MAC mismatch (the code only prints). (components) the rule set of C07 (NEA/NIA algorithms) is run as part of this check: recovery needs the right NEA/NIA."
+	c.Explanation = "Static wiring and counter-estimate check of downlink NAS unprotection (C10). Decided for every path of tglib.NASDecode taken with a non-null integrity algorithm: (R10.dir) every NASEncrypt/NASMacCalculate call receives the UE's algorithm/key pair, COUNT = DLCount.Get(), BEARER = 1 and DIRECTION = 1 (downlink); the MAC is computed over sequence-number||message (payload[6:]) and the cipher is applied to payload[7:]; (R10.iff) deciphering happens exactly for header types 2 and 4; (R10.count) the downlink COUNT is reset to (0,0) exactly for header types 3 and 4 and before the estimate, the overflow is incremented exactly when the stored SQN is greater than the received one, then SQN := received octet payload[6]; the uplink COUNT is never touched; the message returned is PlainNasDecode of the deciphered payload; (R10.plain) header type 0 is decoded without touching any state; (R10.ie) GetNasPdu selects the NAS-PDU IE by its id, not its position, and derives the header type from the same buffer. The NASDecode rules are decided on the abstract evaluator's outcomes (helpers, phases and predicate functions are seen through): the DL COUNT stored when the MAC is computed is SQN = payload[6] with overflow 0 after a reset (types 3/4), old+1 exactly on the path that took stored SQN > received SQN (relational branch facts) and unchanged otherwise. (R8.dispatch, shared with C08) the decoded message is the one its type octet names. NOT decided: cipher/MAC values (C07), the AMF's behaviour, and what happens on a MAC mismatch (the code only prints). (components) the rule set of C07 (NEA/NIA algorithms) is run as part of this check: recovery needs the right NEA/NIA."
 	c.Assumptions = []string{"the NAS security header is EPD(1) SHT(1) MAC(4) SQN(1) (TS 24.501 9.1.1)", "null integrity (NIA0) is outside the property's quantifier; that branch is not analysed"}
 	fn := mustFunc(c, pTglib, "NASDecode")
 	r10paths(c, fn)
